@@ -126,9 +126,9 @@ pub fn sb_event(spends: &[SpendIn], flag_names: &[String], max: u64, consts: &Co
     };
     let adds = catch(std::panic::AssertUnwindSafe(|| match bundle.additions() {
         Ok(v) => json!({"ok": true, "coins": Value::Array(v.iter().map(|c| json!({"parent": jbytes(c.parent_coin_info.as_ref()), "ph": jbytes(c.puzzle_hash.as_ref()), "amt": bignat_u64(c.amount)})).collect())}),
-        Err(e) => json!({"ok": false, "errname": format!("{e:?}")}),
+        Err(e) => json!({"ok": false, "errname": format!("{e:?}"), "errkind": if format!("{e:?}").contains("invalid condition") { "invalid-condition" } else { "other" }}),
     }))
-    .unwrap_or_else(|p| json!({"ok": false, "errname": format!("PANIC: {p}")}));
+    .unwrap_or_else(|p| json!({"ok": false, "errname": format!("PANIC: {p}"), "errkind": "panic"}));
     json!({"k": "sb", "src": src, "flags": flag_names, "max": bignat_u64(max), "cpb": bignat_u64(consts.c.cost_per_byte), "consts": consts.to_json(),
         "spends": Value::Array(spends.iter().map(|s| json!({"parent": jbytes(&s.parent), "ph": jbytes(&s.ph), "amt": bignat_u64(s.amount),
             "puzzle": s.puzzle.to_jsonf(), "solution": s.solution.to_jsonf(), "plen": ser_plain(&s.puzzle).len(), "slen": ser_plain(&s.solution).len()})).collect()),
@@ -218,6 +218,20 @@ pub fn record(args: &Args) {
                 })
                 .unwrap_or_default();
             out.emit(&sb_event(&spends, &flags, BLOCK_MAX, &consts, "mc"));
+        }
+    }
+    // fixed shapes that random generation reaches rarely: a condition whose opcode position holds a pair
+    // (unknown condition for consensus), alone and next to a CREATE_COIN
+    if args.u64("n", 0) > 0 {
+        let pair_op = Sx::list(vec![Sx::cons(Sx::A(vec![1]), Sx::A(vec![51])), Sx::A(vec![0x22; 32]), Sx::uint(1)]);
+        let cc = Sx::list(vec![Sx::A(vec![51]), Sx::A(vec![0x22; 32]), Sx::uint(1)]);
+        for conds in [vec![pair_op.clone()], vec![cc.clone(), pair_op.clone()]] {
+            let puzzle = Sx::cons(Sx::A(vec![1]), Sx::list(conds));
+            let spends = vec![SpendIn { parent: vec![0x41; 32], ph: tree_hash_sx(&puzzle), amount: 10, puzzle, solution: Sx::nil() }];
+            for fl in [vec!["DONT_VALIDATE_SIGNATURE"], vec!["DONT_VALIDATE_SIGNATURE", "NO_UNKNOWN_CONDS"]] {
+                let flags: Vec<String> = fl.iter().map(|x| (*x).to_string()).collect();
+                out.emit(&sb_event(&spends, &flags, BLOCK_MAX, &consts, "random"));
+            }
         }
     }
     for _ in 0..args.u64("n", 0) {
